@@ -30,7 +30,15 @@ fn path_string(rooted: bool, segs: &[[u8; 4]]) -> String {
 
 fn check_path(ctx: &Ctx, rooted: bool, segs: &[[u8; 4]], why: &str) {
     let s = path_string(rooted, segs);
-    let r = catch(|| ser(&Path::new(&s)));
+    // the same Path value serialised twice: both streams must be the NameString form
+    let r = catch(|| {
+        let p = Path::new(&s);
+        let (a, b) = (ser(&p), ser(&p));
+        if a != b {
+            panic!("second serialisation of the same Path differs: {} then {}", hex(&a), hex(&b));
+        }
+        a
+    });
     let mut want = vec![];
     name_encode(rooted, segs, &mut want);
     let cls = match segs.len() {
@@ -268,6 +276,18 @@ pub fn run(ctx: &'static Ctx) {
                 ("MethodCall", ser(&MethodCall::new(p(), vec![])), 0, false),
                 ("PowerResource", ser(&PowerResource::new(p(), 0, 0, vec![])), 2, true),
             ];
+            // and a holder serialised twice gives the same stream
+            {
+                let d = Device::new(p(), vec![]);
+                let m = Method::new(p(), 0, false, vec![]);
+                let x = MethodCall::new(p(), vec![]);
+                for (kind, a, b) in [("Device", ser(&d), ser(&d)), ("Method", ser(&m), ser(&m)), ("MethodCall", ser(&x), ser(&x))] {
+                    ctx.tr(1);
+                    if a != b {
+                        ctx.violation_sized(&format!("name:under:{}:second-serialisation", kind), c as u64, || format!("{} named {:?}: serialised twice gives {} then {}", kind, s, hex(&a), hex(&b)), || json!({"family":"name-under","kind":kind,"path":s}));
+                    }
+                }
+            }
             for (kind, b, ol, pk) in objs {
                 let off = if pk { ol + pkg_decode(&b[ol..]).map(|x| x.1).unwrap_or(1) } else { ol };
                 named += 1;
